@@ -226,14 +226,41 @@ MONITOR_FIXED = [
     ("PaVeBa", [[1, 0.5], [0.5, 1], [0.25, 0.25]], [[1, 0], [0, 1]], 0.5),
     ("PaVeBa", [[1, 1], [1, 1], [0.5, 0.5]], [[1, 0], [0, 1]], 0.5),
     ("PaVeBa", [[1, 1], [0.75, 0.75]], [[1, 0], [0, 1]], 1.0),
+    ("PaVeBa", "sparse12", [[1, 0], [0, 1]], 0.5),
+    ("PaVeBa", "sparse16", [[1, 0], [0, 1]], 0.5),
+    ("Auer", "sparse12auer", None, 0.25),
     ("Auer", [[4, 4], [2, 2], [3.5, 4.25]], None, 0.25),
     ("Auer", [[1, 1], [0.5, 0.5], [0.9, 1.05]], None, 0.25),
 ]
 
 
+def sparse_dataset(K, survivors, isolated, bulk=-4.0, top=(1.0, 1.0), gap=0.5, iso=(-2.0, 4.0)):
+    """K designs: a far-dominated bulk (discarded in round 1), `survivors[0]` on top, the other survivors
+    exactly `gap` (= epsilon: never coverable away, discarded late) below it — the top design enters P and
+    stays useful — and `isolated` an incomparable Pareto design that enters P early and is useful to no
+    one (P minus U non-empty while S is non-empty).  Survivor indices >= 8 apart iterate non-ascending
+    in a CPython set ({3, 8} -> [8, 3], {2, 7, 11} -> [2, 11, 7])."""
+    Y = [[bulk - 0.125 * (i % 3), bulk - 0.125 * (i % 2)] for i in range(K)]
+    Y[survivors[0]] = list(top)
+    for k, i in enumerate(survivors[1:]):
+        Y[i] = [top[0] - gap - 0.125 * k, top[1] - gap + 0.125 * k] if k else [top[0] - gap, top[1] - gap]
+    if isolated is not None:
+        Y[isolated] = list(iso)
+    return Y
+
+
+SPARSE = {
+    "sparse12": lambda: sparse_dataset(12, [3, 8], 11),
+    "sparse16": lambda: sparse_dataset(16, [2, 7, 11], 15),
+    "sparse12auer": lambda: sparse_dataset(12, [3, 8], 11, bulk=-40.0, top=(4.0, 4.0), gap=2.0, iso=(-8.0, 12.0)),
+}
+
+
 def monitor_case(rng, fixed_index=None):
     if fixed_index is not None:
         alg, Y, W, eps = MONITOR_FIXED[fixed_index]
+        if isinstance(Y, str):
+            Y = SPARSE[Y]()
         delta, nv = 0.1, 1.0 / 64
     else:
         alg = rng.choice(["PaVeBa", "PaVeBa", "Auer"])
@@ -247,6 +274,19 @@ def monitor_case(rng, fixed_index=None):
             eps = rng.choice([0.25, 0.5, 1.0])
         W = rng.choice([[[1, 0], [0, 1]], [[1, 0], [0, 1]], [[2, 1], [1, 2]], [[2, -1], [-1, 2]]]) \
             if alg == "PaVeBa" else None
+        if rng.random() < 0.35:  # sparse survivors among K = 12..32 designs, isolated Pareto design
+            first = rng.randint(0, 7)
+            surv = [first, first + rng.randint(5, 9)]
+            if rng.random() < 0.5:
+                surv.append(surv[-1] + 4)
+            K = rng.randint(max(12, surv[-1] + 2), 32)
+            iso = rng.choice([i for i in range(K) if i not in surv])
+            eps = rng.choice([0.5, 1.0]) if alg == "PaVeBa" else 0.25
+            W = [[1, 0], [0, 1]] if alg == "PaVeBa" else None
+            if alg == "PaVeBa":
+                Y = sparse_dataset(K, surv, iso, gap=eps)
+            else:
+                Y = sparse_dataset(K, surv, iso, bulk=-40.0, top=(4.0, 4.0), gap=2.0, iso=(-8.0, 12.0))
         delta = rng.choice([0.01, 0.1, 0.5])
         nv = rng.choice([1.0 / 64, 1.0 / 16, 0.25])
     return {"kind": "monitor", "alg": alg, "Y": Y, "W": W, "epsilon": eps, "delta": delta, "noise_var": nv,
@@ -524,7 +564,20 @@ def run_monitor(ctx, case):
         return real_update(model, scale, indices_to_update)
 
     ds.update = recording_update  # instance attribute of this run's design space only
+
+    def snapshot():
+        out = []
+        for reg in ds.confidence_regions:
+            if alg == "PaVeBa":
+                out.append((np.array(reg.center, dtype=float).ravel().tolist(),
+                            np.array(reg.sigma, dtype=float).ravel().tolist(), float(np.asarray(reg.alpha, dtype=float))))
+            else:
+                out.append((np.array(reg.lower, dtype=float).ravel().tolist(),
+                            np.array(reg.upper, dtype=float).ravel().tolist()))
+        return out
+
     ever_active, skipped = set(), set()
+    pdiffu_rounds = nonasc_rounds = 0
     total, total_reentry = 0.0, 0.0
     rounds = u_rounds = 0
     problems = []  # (key, kind, what, detail) — first of each key is reported
@@ -532,6 +585,10 @@ def run_monitor(ctx, case):
         for _ in range(case["max_rounds"]):
             refreshed.clear()
             in_P_before = set(a.P)
+            notU_before = set(a.P) - set(getattr(a, "U", set()))
+            S_before = set(a.S)
+            regions_before = snapshot()
+            counts_before = [len(sm) for sm in a.model.design_samples]
             try:
                 done = a.run_one_step()
             except Exception as e:  # crashes of whole runs are C06's subject; here the monitor is simply lost
@@ -544,7 +601,17 @@ def run_monitor(ctx, case):
                 problems.append((f"monitor-refresh:{key_alg}", "F",
                                  f"{alg}: design_space.update called {len(refreshed)} times in round {t}", None))
                 break
-            R = sorted(set(refreshed[0]))
+            handed = list(refreshed[0])
+            if handed != sorted(handed):
+                nonasc_rounds += 1
+            if notU_before and S_before:
+                pdiffu_rounds += 1
+            regions_after = snapshot()
+            changed = [i for i in range(K) if regions_after[i] != regions_before[i]]
+            outside = sorted(set(changed) - set(handed))
+            if outside:  # a region that moved without going through design_space.update is refreshed all the same
+                ctx.count("monitor_changed_outside_update_info")
+            R = sorted(set(handed) | set(changed))
             if not set(a.S) <= set(R):
                 problems.append((f"monitor-refresh:{key_alg}", "F",
                                  f"{alg}: round {t}: undecided designs {sorted(set(a.S) - set(R))} were not refreshed", None))
@@ -555,10 +622,35 @@ def run_monitor(ctx, case):
                 sched = model_scale(ctx, "paveba", K, m, delta, t, nv, 1.0)
             else:
                 sched = model_scale(ctx, "auer", K, m, delta, t, nv, 1.0)
+            means = np.asarray(a.model.means, dtype=float)
             for i in R:
                 n = counts[i]
                 reentry = i in skipped
                 reg = ds.confidence_regions[i]
+                # (a) the displayed centre is this design's OWN posterior mean (exact for EmpiricalMeanVar)
+                if alg == "PaVeBa":
+                    centre = np.asarray(reg.center, dtype=float).ravel()
+                    own = np.array_equal(centre, means[i])
+                else:
+                    lo_, up_ = np.asarray(reg.lower, dtype=float).ravel(), np.asarray(reg.upper, dtype=float).ravel()
+                    centre = (lo_ + up_) / 2.0
+                    own = bool(np.all(np.abs(centre - means[i]) <= 1e-12 * (1.0 + np.abs(lo_) + np.abs(up_))))
+                if not own:
+                    whose = [j for j in range(K) if np.allclose(centre, means[j], rtol=0, atol=1e-12)]
+                    problems.append((f"region-not-from-own-posterior:{key_alg}", "R",
+                                     f"{alg}: round {t}: the region displayed for design {i} is centred at {centre.tolist()} "
+                                     f"but the model's mean for design {i} is {means[i].tolist()}"
+                                     + (f" (that is design {whose[0]}'s mean)" if whose else "")
+                                     + f"; true value {Y[i].tolist()}, radius/half-width {sched}",
+                                     {"round": t, "design": i, "update_order": handed, "true_value": Y[i].tolist(),
+                                      "distance_truth_centre": float(np.linalg.norm(centre - Y[i]))}))
+                # (b) a design whose region is rebuilt this round must have been sampled this round
+                if counts[i] != counts_before[i] + 1:
+                    problems.append((f"sampling-assumption:{key_alg}", "R",
+                                     f"{alg}: in round {t} the region of design {i} was rebuilt with the round-{t} radius "
+                                     f"but the design was not sampled this round ({counts_before[i]} -> {counts[i]} samples)",
+                                     {"round": t, "design": i, "samples": counts, "refreshed": R, "S": sorted(a.S),
+                                      "P": sorted(a.P), "U": sorted(getattr(a, "U", []))}))
                 if alg == "PaVeBa":
                     shown = float(np.asarray(reg.alpha, dtype=float))
                     ident = np.array_equal(np.asarray(reg.sigma, dtype=float).reshape(m, m), np.eye(m))
@@ -598,6 +690,8 @@ def run_monitor(ctx, case):
                 break
     ctx.count("monitor_rounds", rounds)
     ctx.count("monitor_rounds_with_U", u_rounds)
+    ctx.count("monitor_rounds_with_P_minus_U_and_S", pdiffu_rounds)
+    ctx.count("monitor_rounds_nonascending_update_order", nonasc_rounds)
     if not (total <= delta * (1 + 1e-12)):
         problems.append((f"sum:{key_alg}-actual-counts", "R",
                          f"{alg}: union-bound sum over this run with the ACTUAL sample counts n_i,t and the displayed "
